@@ -163,7 +163,9 @@ def apply(x, op, sym):
   if name == 'get':
     return obj[i]
   if name == 'sort':
-    return obj.sort(key=_sortkey, reverse=bool(m % 2))
+    # (keys with ties: a stable sort keeps tied items in their order, also with reverse=True)
+    key = [_sortkey, lambda e: len(repr(values.plain(e))), lambda e: 0][(m // 2) % 3]
+    return obj.sort(key=key, reverse=bool(m % 2))
   if name == 'reverse':
     return obj.reverse()
   if name == 'clear':
